@@ -26,6 +26,26 @@ theorem tstep_now {cfg : Cfg} {sh : Sh} {t : Thread} {ch : Choice} {r : TRes}
     (h : tstep cfg sh t ch = some r) : r.sh.now = sh.now := by
   tstep_cases h <;> rfl
 
+@[simp] theorem loadDeadline_kind (cfg : Cfg) (t : Thread) (cell : Option Time) :
+    (t.loadDeadline cfg cell).kind = t.kind := by
+  unfold Thread.loadDeadline; repeat' split
+  all_goals rfl
+
+@[simp] theorem loadDeadline_pc (cfg : Cfg) (t : Thread) (cell : Option Time) :
+    (t.loadDeadline cfg cell).pc = t.pc := by
+  unfold Thread.loadDeadline; repeat' split
+  all_goals rfl
+
+@[simp] theorem loadDeadline_dieAtCall (cfg : Cfg) (t : Thread) (cell : Option Time) :
+    (t.loadDeadline cfg cell).dieAtCall = t.dieAtCall := by
+  unfold Thread.loadDeadline; repeat' split
+  all_goals rfl
+
+@[simp] theorem loadDeadline_seen (cfg : Cfg) (t : Thread) (cell : Option Time) :
+    (t.loadDeadline cfg cell).seen = cell := by
+  unfold Thread.loadDeadline; repeat' split
+  all_goals rfl
+
 /-! ## the private timer of a caller -/
 
 /-- the caller is between RESET_TIMER and the `select` (its `c` and timer reflect `seen`) -/
@@ -257,5 +277,549 @@ theorem reach_timerInv {cfg : Cfg} {kinds : List Kind} {wnd infl : Nat} {s : Sta
     exact step_forall_ths (fun n t => TimerInv n t) (fun hn h => h.mono hn)
       (fun h hs => tstep_timerInv hc hr h hs) (fun h hf => h.fire hf)
       (fun _ k b => TimerInv.call k b) (fun h => h.toIdle) ih hs
+
+/-! ## enabledness, quiescence, tick -/
+
+theorem not_quiescent_of_canStep {cfg : Cfg} {s : State} {t : Thread} (ht : t ∈ s.ths)
+    (h : t.canStep cfg s.sh = true) : quiescent cfg s = false := by
+  cases hq : quiescent cfg s with
+  | false => rfl
+  | true =>
+    simp only [quiescent, List.all_eq_true] at hq
+    have := hq t ht
+    simp [h] at this
+
+theorem tick_none_of_canStep {cfg : Cfg} {s : State} {t : Thread} (ht : t ∈ s.ths)
+    (h : t.canStep cfg s.sh = true) (t' : Time) : step cfg s (.tick t') = none := by
+  simp [step, not_quiescent_of_canStep ht h]
+
+theorem canStep_of_choice {cfg : Cfg} {sh : Sh} {t : Thread} (ch : Choice)
+    (h : (tstep cfg sh t ch).isSome = true) : t.canStep cfg sh = true := by
+  simp only [Thread.canStep, Bool.or_eq_true, List.any_eq_true]
+  left
+  exact ⟨ch, by cases ch <;> simp [allChoices], h⟩
+
+theorem canStep_of_fire {cfg : Cfg} {sh : Sh} {t : Thread}
+    (h : (t.fire sh.now).isSome = true) : t.canStep cfg sh = true := by
+  simp [Thread.canStep, h]
+
+/-- a tick needs a quiescent state and does not jump over an armed timer -/
+theorem tick_spec {cfg : Cfg} {s s' : State} {t' : Time} (h : step cfg s (.tick t') = some s') :
+    s.sh.now < t' ∧ quiescent cfg s = true ∧ (∀ t ∈ s.ths, ∀ w, t.armed = some w → t' ≤ w) ∧
+      s' = { s with sh := { s.sh with now := t' } } := by
+  simp only [step] at h
+  split at h
+  · rename_i hc
+    simp only [Bool.and_eq_true, decide_eq_true_eq, List.all_eq_true] at hc
+    refine ⟨hc.1.1, hc.1.2, ?_, by cases h; rfl⟩
+    intro t ht w hw
+    have := hc.2 t ht
+    simpa [Thread.armedGe, hw] using this
+  · contradiction
+
+/-! ## data never left unclaimed (chain wake) -/
+
+/-- a reader that will test `readable` before it can block -/
+def Thread.aboutToCheck (t : Thread) : Prop :=
+  t.kind = .read ∧ (t.pc = .reset ∨ t.pc = .check ∨ t.pc = .woken)
+
+theorem tstep_data {cfg : Cfg} {sh : Sh} {t : Thread} {ch : Choice} {r : TRes}
+    (hchain : cfg.chain = true) (hs : tstep cfg sh t ch = some r) (hpos : 0 < r.sh.readable) :
+    0 < sh.readable ∧ ((sh.rtok = true ∨ t.aboutToCheck) → (r.sh.rtok = true ∨ r.t.aboutToCheck)) := by
+  tstep_cases hs
+  all_goals simp_all [Thread.aboutToCheck, Thread.finish, Thread.stopDrain]
+
+/-- readable data ⇒ a wake-up token is pending or some reader is about to test for data -/
+def DataInv (s : State) : Prop :=
+  0 < s.sh.readable → s.sh.rtok = true ∨ ∃ (j : Nat) (t : Thread), s.ths[j]? = some t ∧ t.aboutToCheck
+
+theorem step_dataInv {cfg : Cfg} {s s' : State} {l : Label} (hchain : cfg.chain = true)
+    (h : DataInv s) (hs : step cfg s l = some s') : DataInv s' := by
+  cases l <;> simp only [step] at hs
+  case thr i ch =>
+    split at hs
+    · rename_i t hi
+      split at hs
+      · rename_i r hr
+        cases hs
+        unfold DataInv; intro hpos
+        simp only at hpos ⊢
+        have hd := tstep_data hchain hr hpos
+        have hlt : i < s.ths.length := by
+          rcases Nat.lt_or_ge i s.ths.length with h1 | h1
+          · exact h1
+          · simp [List.getElem?_eq_none h1] at hi
+        have hnew : (r.sh.rtok = true ∨ r.t.aboutToCheck) →
+            r.sh.rtok = true ∨ ∃ (j : Nat) (t : Thread), (s.ths.set i r.t)[j]? = some t ∧ t.aboutToCheck := by
+          intro h1
+          rcases h1 with h1 | h1
+          · exact Or.inl h1
+          · exact Or.inr ⟨i, r.t, by simp [hlt], h1⟩
+        rcases h hd.1 with h1 | ⟨j, t0, hj, h0⟩
+        · exact hnew (hd.2 (Or.inl h1))
+        · by_cases hij : i = j
+          · subst hij
+            rw [hi] at hj; cases hj
+            exact hnew (hd.2 (Or.inr h0))
+          · exact Or.inr ⟨j, t0, by simp [hij, hj], h0⟩
+      · contradiction
+    · contradiction
+  case fire i =>
+    split at hs
+    · rename_i t hi
+      split at hs
+      · rename_i t1 hf
+        cases hs
+        unfold DataInv; intro hpos
+        have hlt : i < s.ths.length := by
+          rcases Nat.lt_or_ge i s.ths.length with h1 | h1
+          · exact h1
+          · simp [List.getElem?_eq_none h1] at hi
+        rcases h hpos with h1 | ⟨j, t0, hj, h0⟩
+        · exact Or.inl h1
+        · by_cases hij : i = j
+          · subst hij
+            rw [hi] at hj; cases hj
+            refine Or.inr ⟨i, t1, by simp [hlt], ?_⟩
+            unfold Thread.fire at hf
+            split at hf
+            · split at hf
+              · cases hf; exact h0
+              · contradiction
+            · contradiction
+          · exact Or.inr ⟨j, t0, by simp [hij, hj], h0⟩
+      · contradiction
+    · contradiction
+  case call i =>
+    split at hs
+    · rename_i t hi
+      split at hs
+      · rename_i hidle
+        cases hs
+        unfold DataInv; intro hpos
+        rcases h hpos with h1 | ⟨j, t0, hj, h0⟩
+        · exact Or.inl h1
+        · by_cases hij : i = j
+          · subst hij
+            rw [hi] at hj; cases hj
+            simp [Thread.aboutToCheck, hidle] at h0
+          · exact Or.inr ⟨j, t0, by simp [hij, hj], h0⟩
+      · contradiction
+    · contradiction
+  case collect i =>
+    split at hs
+    · rename_i t hi
+      split at hs
+      · rename_i hdone
+        cases hs
+        unfold DataInv; intro hpos
+        rcases h hpos with h1 | ⟨j, t0, hj, h0⟩
+        · exact Or.inl h1
+        · by_cases hij : i = j
+          · subst hij
+            rw [hi] at hj; cases hj
+            simp [Thread.aboutToCheck, hdone] at h0
+          · exact Or.inr ⟨j, t0, by simp [hij, hj], h0⟩
+      · contradiction
+    · contradiction
+  case tick t1 =>
+    split at hs
+    · cases hs; exact h
+    · contradiction
+  case pump =>
+    split at hs <;> cases hs <;> exact h
+  case arrive k =>
+    cases hs; unfold DataInv; intro hpos; simp only at hpos ⊢; left; simp [hpos]
+  case opn j =>
+    cases hs; unfold DataInv; intro hpos; simp only at hpos ⊢; left; simp [hpos]
+  case setRD d => cases hs; unfold DataInv; intro _; left; rfl
+  case setD d => cases hs; unfold DataInv; intro _; left; rfl
+  all_goals (cases hs; exact h)
+
+theorem reach_dataInv {cfg : Cfg} {kinds : List Kind} {wnd infl : Nat} {s : State}
+    (hchain : cfg.chain = true) (h : Reach cfg (init kinds wnd infl) s) : DataInv s := by
+  refine Reach.induct (P := DataInv) ?_ ?_ h
+  · unfold DataInv; intro hpos; simp [init] at hpos
+  · intro s l s' _ ih hs; exact step_dataInv hchain ih hs
+
+/-! ## the kinds of the caller slots are static -/
+
+theorem fire_same {now : Time} {t t' : Thread} (h : t.fire now = some t') :
+    t'.kind = t.kind ∧ t'.pc = t.pc ∧ t'.seen = t.seen ∧ t'.c = t.c := by
+  unfold Thread.fire at h
+  split at h
+  · split at h
+    · cases h; exact ⟨rfl, rfl, rfl, rfl⟩
+    · contradiction
+  · contradiction
+
+theorem step_kinds {cfg : Cfg} {s s' : State} {l : Label} (hs : step cfg s l = some s') :
+    s'.ths.map (·.kind) = s.ths.map (·.kind) := by
+  have key : ∀ (i : Nat) (t t' : Thread), s.ths[i]? = some t → t'.kind = t.kind →
+      (s.ths.set i t').map (·.kind) = s.ths.map (·.kind) := by
+    intro i t t' hi hk
+    apply List.ext_getElem?
+    intro j
+    by_cases hij : i = j
+    · subst hij
+      have hlt : i < s.ths.length := by
+        rcases Nat.lt_or_ge i s.ths.length with h1 | h1
+        · exact h1
+        · simp [List.getElem?_eq_none h1] at hi
+      have hget : s.ths[i] = t := by
+        have := List.getElem?_eq_getElem hlt
+        rw [hi] at this; exact (Option.some.inj this).symm
+      simp [hlt, hk, hget]
+    · simp [hij]
+  cases l <;> simp only [step] at hs
+  case thr i ch =>
+    split at hs
+    · rename_i t hi
+      split at hs
+      · rename_i r hr
+        cases hs; exact key i t r.t hi (tstep_kind hr)
+      · contradiction
+    · contradiction
+  case fire i =>
+    split at hs
+    · rename_i t hi
+      split at hs
+      · rename_i t1 hf
+        cases hs; exact key i t t1 hi (fire_same hf).1
+      · contradiction
+    · contradiction
+  case call i =>
+    split at hs
+    · rename_i t hi
+      split at hs
+      · cases hs; exact key i t _ hi rfl
+      · contradiction
+    · contradiction
+  case collect i =>
+    split at hs
+    · rename_i t hi
+      split at hs
+      · cases hs; exact key i t _ hi rfl
+      · contradiction
+    · contradiction
+  case tick t1 =>
+    split at hs
+    · cases hs; rfl
+    · contradiction
+  case pump =>
+    split at hs <;> cases hs <;> rfl
+  all_goals (cases hs; rfl)
+
+theorem reach_kinds {cfg : Cfg} {kinds : List Kind} {wnd infl : Nat} {s : State}
+    (h : Reach cfg (init kinds wnd infl) s) : s.ths.map (·.kind) = kinds := by
+  refine Reach.induct (P := fun s => s.ths.map (·.kind) = kinds) ?_ ?_ h
+  · simp [init, Function.comp_def]
+  · intro s l s' _ ih hs; rw [step_kinds hs]; exact ih
+
+/-- at most one caller slot of kind `k` -/
+def SingleK (k : Kind) (ks : List Kind) : Prop :=
+  ∀ i j : Nat, ks[i]? = some k → ks[j]? = some k → i = j
+
+theorem single_of_kinds {k : Kind} {s : State} (h : SingleK k (s.ths.map (·.kind)))
+    {i j : Nat} {ti tj : Thread} (hi : s.ths[i]? = some ti) (hj : s.ths[j]? = some tj)
+    (hki : ti.kind = k) (hkj : tj.kind = k) : i = j := by
+  apply h i j
+  · simp [hi, hki]
+  · simp [hj, hkj]
+
+/-! ## what the environment can do to the shared state -/
+
+structure EnvRel (a b : Sh) : Prop where
+  now : a.now ≤ b.now
+  rd : (b.rd = a.rd ∧ (a.rtok = true → b.rtok = true)) ∨ b.rtok = true
+  wd : (b.wd = a.wd ∧ (a.wtok = true → b.wtok = true)) ∨ b.wtok = true
+  room : (b.inflight = a.inflight ∧ b.wnd = a.wnd ∧ (a.wtok = true → b.wtok = true)) ∨
+    (b.inflight < b.wnd → b.wtok = true)
+  data : (b.readable = a.readable ∧ (a.rtok = true → b.rtok = true)) ∨ (0 < b.readable → b.rtok = true)
+
+theorem EnvRel.refl (a : Sh) : EnvRel a a :=
+  ⟨Nat.le_refl _, Or.inl ⟨rfl, id⟩, Or.inl ⟨rfl, id⟩, Or.inl ⟨rfl, rfl, id⟩, Or.inl ⟨rfl, id⟩⟩
+
+theorem step_env {cfg : Cfg} {s s' : State} {l : Label} (hs : step cfg s l = some s') :
+    (∃ i ch, l = .thr i ch) ∨ (∃ i, l = .fire i) ∨ (∃ i, l = .call i) ∨ (∃ i, l = .collect i) ∨
+      (s'.ths = s.ths ∧ EnvRel s.sh s'.sh) := by
+  cases l <;> simp only [step] at hs
+  case thr i ch => exact Or.inl ⟨i, ch, rfl⟩
+  case fire i => exact Or.inr (Or.inl ⟨i, rfl⟩)
+  case call i => exact Or.inr (Or.inr (Or.inl ⟨i, rfl⟩))
+  case collect i => exact Or.inr (Or.inr (Or.inr (Or.inl ⟨i, rfl⟩)))
+  case tick t1 =>
+    split at hs
+    · rename_i hc
+      simp only [Bool.and_eq_true, decide_eq_true_eq] at hc
+      cases hs
+      exact Or.inr (Or.inr (Or.inr (Or.inr ⟨rfl, ⟨Nat.le_of_lt hc.1.1, Or.inl ⟨rfl, id⟩, Or.inl ⟨rfl, id⟩, Or.inl ⟨rfl, rfl, id⟩, Or.inl ⟨rfl, id⟩⟩⟩)))
+    · contradiction
+  case pump =>
+    split at hs
+    · cases hs; exact Or.inr (Or.inr (Or.inr (Or.inr ⟨rfl, EnvRel.refl _⟩)))
+    · cases hs
+      refine Or.inr (Or.inr (Or.inr (Or.inr ⟨rfl, ⟨Nat.le_refl _, Or.inl ⟨rfl, id⟩, Or.inl ⟨rfl, ?_⟩, Or.inl ⟨rfl, rfl, ?_⟩, Or.inl ⟨rfl, id⟩⟩⟩)))
+      all_goals (intro h; simp [h])
+  all_goals
+    cases hs
+    refine Or.inr (Or.inr (Or.inr (Or.inr ⟨rfl, ⟨Nat.le_refl _, ?_, ?_, ?_, ?_⟩⟩)))
+  all_goals first
+    | exact Or.inl ⟨rfl, id⟩
+    | exact Or.inl ⟨rfl, rfl, id⟩
+    | exact Or.inr rfl
+    | (refine Or.inl ⟨rfl, ?_⟩; intro h; simp [h])
+    | (refine Or.inr ?_; intro h; simp [h])
+    | (refine Or.inr ?_; simp)
+    | skip
+
+/-! ## lifting an invariant about the only caller of kind `k` -/
+
+theorem getElem?_lt {α : Type} {l : List α} {i : Nat} {a : α} (h : l[i]? = some a) : i < l.length := by
+  rcases Nat.lt_or_ge i l.length with h1 | h1
+  · exact h1
+  · simp [List.getElem?_eq_none h1] at h
+
+theorem step_forall_single {cfg : Cfg} (k : Kind) (Q : Sh → Thread → Prop)
+    (hself : ∀ {sh : Sh} {t : Thread} {ch : Choice} {r : TRes},
+      t.kind = k → Q sh t → tstep cfg sh t ch = some r → Q r.sh r.t)
+    (hother : ∀ {sh : Sh} {t t0 : Thread} {ch : Choice} {r : TRes},
+      t.kind ≠ k → tstep cfg sh t ch = some r → Q sh t0 → Q r.sh t0)
+    (hfire : ∀ {sh : Sh} {t t' : Thread}, Q sh t → t.fire sh.now = some t' → Q sh t')
+    (hcall : ∀ (sh : Sh) (b : Bool), Q sh { kind := k, pc := .reset, dieAtCall := b })
+    (hidle : ∀ {sh : Sh} {t : Thread}, Q sh t → Q sh { t with pc := .idle })
+    (henv : ∀ {a b : Sh} {t : Thread}, EnvRel a b → Q a t → Q b t)
+    {s s' : State} {l : Label} (hsingle : SingleK k (s.ths.map (·.kind)))
+    (h : ∀ (i : Nat) (t : Thread), s.ths[i]? = some t → t.kind = k → Q s.sh t)
+    (hs : step cfg s l = some s') :
+    ∀ (i : Nat) (t : Thread), s'.ths[i]? = some t → t.kind = k → Q s'.sh t := by
+  rcases step_env hs with ⟨i, ch, rfl⟩ | ⟨i, rfl⟩ | ⟨i, rfl⟩ | ⟨i, rfl⟩ | ⟨hths, hrel⟩
+  · simp only [step] at hs
+    split at hs
+    · rename_i t hi
+      split at hs
+      · rename_i r hr
+        cases hs
+        intro j t0 hj hk
+        simp only at hj ⊢
+        by_cases hij : i = j
+        · subst hij
+          simp [getElem?_lt hi] at hj
+          subst hj
+          exact hself ((tstep_kind hr).symm.trans hk) (h i t hi ((tstep_kind hr).symm.trans hk)) hr
+        · simp [hij] at hj
+          have hne : t.kind ≠ k := by
+            intro hkt
+            exact hij (single_of_kinds hsingle hi hj hkt hk)
+          exact hother hne hr (h j t0 hj hk)
+      · contradiction
+    · contradiction
+  · simp only [step] at hs
+    split at hs
+    · rename_i t hi
+      split at hs
+      · rename_i t1 hf
+        cases hs
+        intro j t0 hj hk
+        simp only at hj ⊢
+        by_cases hij : i = j
+        · subst hij
+          simp [getElem?_lt hi] at hj
+          subst hj
+          exact hfire (h i t hi ((fire_same hf).1.symm.trans hk)) hf
+        · simp [hij] at hj
+          exact h j t0 hj hk
+      · contradiction
+    · contradiction
+  · simp only [step] at hs
+    split at hs
+    · rename_i t hi
+      split at hs
+      · cases hs
+        intro j t0 hj hk
+        simp only at hj ⊢
+        by_cases hij : i = j
+        · subst hij
+          simp [getElem?_lt hi] at hj
+          subst hj
+          simp only at hk
+          rw [hk]
+          exact hcall _ _
+        · simp [hij] at hj
+          exact h j t0 hj hk
+      · contradiction
+    · contradiction
+  · simp only [step] at hs
+    split at hs
+    · rename_i t hi
+      split at hs
+      · cases hs
+        intro j t0 hj hk
+        simp only at hj ⊢
+        by_cases hij : i = j
+        · subst hij
+          simp [getElem?_lt hi] at hj
+          subst hj
+          exact hidle (h i t hi hk)
+        · simp [hij] at hj
+          exact h j t0 hj hk
+      · contradiction
+    · contradiction
+  · intro j t0 hj hk
+    rw [hths] at hj
+    exact henv hrel (h j t0 hj hk)
+
+/-! ## single reader / single writer: deadline coherence and window wake-up -/
+
+/-- the deadline the caller has loaded is the one in the cell, or a wake-up is pending -/
+def CohR (sh : Sh) (t : Thread) : Prop := t.waiting → sh.rd = t.seen ∨ sh.rtok = true
+def CohW (sh : Sh) (t : Thread) : Prop := t.waiting → sh.wd = t.seen ∨ sh.wtok = true
+/-- free window: the writer is not asleep without a pending wake-up -/
+def RoomW (sh : Sh) (t : Thread) : Prop := t.pc = .sel → sh.inflight < sh.wnd → sh.wtok = true
+/-- readable data: the reader is not asleep without a pending wake-up -/
+def DataR (sh : Sh) (t : Thread) : Prop := t.pc = .sel → 0 < sh.readable → sh.rtok = true
+
+theorem tstep_frame_nonread {cfg : Cfg} {sh : Sh} {t : Thread} {ch : Choice} {r : TRes}
+    (hk : t.kind ≠ .read) (hs : tstep cfg sh t ch = some r) :
+    r.sh.rd = sh.rd ∧ r.sh.rtok = sh.rtok ∧ r.sh.readable = sh.readable := by
+  tstep_cases hs
+  all_goals simp_all
+
+theorem tstep_frame_nonwrite {cfg : Cfg} {sh : Sh} {t : Thread} {ch : Choice} {r : TRes}
+    (hk : t.kind ≠ .write) (hs : tstep cfg sh t ch = some r) :
+    r.sh.wd = sh.wd ∧ r.sh.wtok = sh.wtok ∧ r.sh.inflight = sh.inflight ∧ r.sh.wnd = sh.wnd := by
+  tstep_cases hs
+  all_goals simp_all
+
+theorem tstep_cohR {cfg : Cfg} {sh : Sh} {t : Thread} {ch : Choice} {r : TRes} (hr : cfg.rearm = true)
+    (hk : t.kind = .read) (h : CohR sh t) (hs : tstep cfg sh t ch = some r) : CohR r.sh r.t := by
+  unfold CohR at *
+  tstep_cases hs
+  all_goals simp_all [Thread.waiting, Thread.finish, Thread.stopDrain]
+
+theorem tstep_cohW {cfg : Cfg} {sh : Sh} {t : Thread} {ch : Choice} {r : TRes} (hr : cfg.rearm = true)
+    (hk : t.kind = .write) (h : CohW sh t) (hs : tstep cfg sh t ch = some r) : CohW r.sh r.t := by
+  unfold CohW at *
+  tstep_cases hs
+  all_goals simp_all [Thread.waiting, Thread.finish, Thread.stopDrain]
+
+theorem tstep_roomW {cfg : Cfg} {sh : Sh} {t : Thread} {ch : Choice} {r : TRes}
+    (hk : t.kind = .write) (h : RoomW sh t) (hs : tstep cfg sh t ch = some r) : RoomW r.sh r.t := by
+  unfold RoomW at *
+  tstep_cases hs
+  all_goals simp_all [Thread.finish]
+  intro h1; omega
+
+theorem tstep_dataR {cfg : Cfg} {sh : Sh} {t : Thread} {ch : Choice} {r : TRes}
+    (hk : t.kind = .read) (h : DataR sh t) (hs : tstep cfg sh t ch = some r) : DataR r.sh r.t := by
+  unfold DataR at *
+  tstep_cases hs
+  all_goals simp_all [Thread.finish]
+
+theorem reach_dataR {cfg : Cfg} {kinds : List Kind} {wnd infl : Nat} {s : State}
+    (hsingle : SingleK .read kinds) (h : Reach cfg (init kinds wnd infl) s) :
+    ∀ (i : Nat) (t : Thread), s.ths[i]? = some t → t.kind = .read → DataR s.sh t := by
+  refine Reach.induct (P := fun s => ∀ (i : Nat) (t : Thread), s.ths[i]? = some t → t.kind = .read → DataR s.sh t) ?_ ?_ h
+  · intro i t hi _
+    have : t ∈ (init kinds wnd infl).ths := List.mem_of_getElem? hi
+    simp only [init, List.mem_map] at this
+    obtain ⟨k, _, rfl⟩ := this
+    simp [DataR]
+  · intro s l s' hreach ih hs
+    refine step_forall_single .read DataR (fun hk h hs => tstep_dataR hk h hs) ?_ ?_ ?_ ?_ ?_
+      (by rw [reach_kinds hreach]; exact hsingle) ih hs
+    · intro sh t t0 ch r hk hs h hp
+      have hf := tstep_frame_nonread hk hs
+      rw [hf.2.1, hf.2.2]; exact h hp
+    · intro sh t t' h hf hp
+      have hs := fire_same hf
+      exact h (hs.2.1 ▸ hp)
+    · intro sh b; simp [DataR]
+    · intro sh t _; simp [DataR]
+    · intro a b t hrel h hp hpos
+      rcases hrel.data with ⟨h1, h2⟩ | h1
+      · exact h2 (h hp (by rw [← h1]; exact hpos))
+      · exact h1 hpos
+
+theorem reach_cohR {cfg : Cfg} {kinds : List Kind} {wnd infl : Nat} {s : State} (hr : cfg.rearm = true)
+    (hsingle : SingleK .read kinds) (h : Reach cfg (init kinds wnd infl) s) :
+    ∀ (i : Nat) (t : Thread), s.ths[i]? = some t → t.kind = .read → CohR s.sh t := by
+  refine Reach.induct (P := fun s => ∀ (i : Nat) (t : Thread), s.ths[i]? = some t → t.kind = .read → CohR s.sh t) ?_ ?_ h
+  · intro i t hi _
+    have : t ∈ (init kinds wnd infl).ths := List.mem_of_getElem? hi
+    simp only [init, List.mem_map] at this
+    obtain ⟨k, _, rfl⟩ := this
+    simp [CohR, Thread.waiting]
+  · intro s l s' hreach ih hs
+    refine step_forall_single .read CohR (fun hk h hs => tstep_cohR hr hk h hs) ?_ ?_ ?_ ?_ ?_
+      (by rw [reach_kinds hreach]; exact hsingle) ih hs
+    · intro sh t t0 ch r hk hs h hw
+      have hf := tstep_frame_nonread hk hs
+      rw [hf.1, hf.2.1]; exact h hw
+    · intro sh t t' h hf hw
+      have hs := fire_same hf
+      have hw' : t.waiting := by simpa [Thread.waiting, hs.2.1] using hw
+      rw [hs.2.2.1]; exact h hw'
+    · intro sh b; simp [CohR, Thread.waiting]
+    · intro sh t _; simp [CohR, Thread.waiting]
+    · intro a b t hrel h hw
+      rcases hrel.rd with ⟨h1, h2⟩ | h1
+      · rcases h hw with h3 | h3
+        · exact Or.inl (h1.trans h3)
+        · exact Or.inr (h2 h3)
+      · exact Or.inr h1
+
+theorem reach_cohW {cfg : Cfg} {kinds : List Kind} {wnd infl : Nat} {s : State} (hr : cfg.rearm = true)
+    (hsingle : SingleK .write kinds) (h : Reach cfg (init kinds wnd infl) s) :
+    ∀ (i : Nat) (t : Thread), s.ths[i]? = some t → t.kind = .write → CohW s.sh t := by
+  refine Reach.induct (P := fun s => ∀ (i : Nat) (t : Thread), s.ths[i]? = some t → t.kind = .write → CohW s.sh t) ?_ ?_ h
+  · intro i t hi _
+    have : t ∈ (init kinds wnd infl).ths := List.mem_of_getElem? hi
+    simp only [init, List.mem_map] at this
+    obtain ⟨k, _, rfl⟩ := this
+    simp [CohW, Thread.waiting]
+  · intro s l s' hreach ih hs
+    refine step_forall_single .write CohW (fun hk h hs => tstep_cohW hr hk h hs) ?_ ?_ ?_ ?_ ?_
+      (by rw [reach_kinds hreach]; exact hsingle) ih hs
+    · intro sh t t0 ch r hk hs h hw
+      have hf := tstep_frame_nonwrite hk hs
+      rw [hf.1, hf.2.1]; exact h hw
+    · intro sh t t' h hf hw
+      have hs := fire_same hf
+      have hw' : t.waiting := by simpa [Thread.waiting, hs.2.1] using hw
+      rw [hs.2.2.1]; exact h hw'
+    · intro sh b; simp [CohW, Thread.waiting]
+    · intro sh t _; simp [CohW, Thread.waiting]
+    · intro a b t hrel h hw
+      rcases hrel.wd with ⟨h1, h2⟩ | h1
+      · rcases h hw with h3 | h3
+        · exact Or.inl (h1.trans h3)
+        · exact Or.inr (h2 h3)
+      · exact Or.inr h1
+
+theorem reach_roomW {cfg : Cfg} {kinds : List Kind} {wnd infl : Nat} {s : State}
+    (hsingle : SingleK .write kinds) (h : Reach cfg (init kinds wnd infl) s) :
+    ∀ (i : Nat) (t : Thread), s.ths[i]? = some t → t.kind = .write → RoomW s.sh t := by
+  refine Reach.induct (P := fun s => ∀ (i : Nat) (t : Thread), s.ths[i]? = some t → t.kind = .write → RoomW s.sh t) ?_ ?_ h
+  · intro i t hi _
+    have : t ∈ (init kinds wnd infl).ths := List.mem_of_getElem? hi
+    simp only [init, List.mem_map] at this
+    obtain ⟨k, _, rfl⟩ := this
+    simp [RoomW]
+  · intro s l s' hreach ih hs
+    refine step_forall_single .write RoomW (fun hk h hs => tstep_roomW hk h hs) ?_ ?_ ?_ ?_ ?_
+      (by rw [reach_kinds hreach]; exact hsingle) ih hs
+    · intro sh t t0 ch r hk hs h hp
+      have hf := tstep_frame_nonwrite hk hs
+      rw [hf.2.1, hf.2.2.1, hf.2.2.2]; exact h hp
+    · intro sh t t' h hf hp
+      have hs := fire_same hf
+      exact h (hs.2.1 ▸ hp)
+    · intro sh b; simp [RoomW]
+    · intro sh t _; simp [RoomW]
+    · intro a b t hrel h hp hroom
+      rcases hrel.room with ⟨h1, h2, h3⟩ | h1
+      · exact h3 (h hp (by rw [← h1, ← h2]; exact hroom))
+      · exact h1 hroom
 
 end KcpVerif.Wait
